@@ -13,4 +13,7 @@ class Parameter(ASTNode):
         return '\t' * level + f'Parameter({repr(self.value)})'
 
     def get_string(self, *args, **kwargs):
+        if self.value == '?':
+            # the positional placeholder, as the lexers read it
+            return '?'
         return ':' + str(self.value)
